@@ -110,7 +110,7 @@ def run(ctx):
             scripts = [s for s in scripts if not _dangling_txn(s)]
         cs = sd.consts(kind, **dict(big, MaxTxn=14, MaxRecs=5, MaxClock=8, RefSets='AllRefs'))
         behs = sc.evaluate(ctx, kind, scripts, cs)
-        whole = [len(b) == len(s_) + 1 for s_, b in zip(scripts, behs)]
+        whole = [sc.complete(s_, b) for s_, b in zip(scripts, behs)]
         if kind == 'file' and not all(whole[:14]):
             # (an entry that is not enabled in the model ends a script silently: the directed families must run through)
             raise RuntimeError('directed pack scenarios were not evaluated to their end: %r' % [i for i, w in enumerate(whole[:14]) if not w])
